@@ -352,6 +352,10 @@ class C08(Prop):
                 if fl - lo < 0:
                     continue   # window still overlaps the zero pre-roll
                 if deg == 4:
+                    # Nearest: an instant that is (in exact arithmetic) an integer is a tie of a discontinuous kernel -- the
+                    # f64 position may sit a rounding error below it and select the sample before (same rule as in (a))
+                    if abs(tau - round(tau)) < Fraction(1, 10 ** 6):
+                        continue
                     x = Fraction(fl)
                 else:
                     x = tau
